@@ -201,6 +201,9 @@ def check(tier, seed, t0):
     total = 150 if tier == "quick" else 3000
     parts = [("lib", common.run_rgmon("c14", tier, seed)),
              ("cli", common.run_cli_cases("c03", cli_case, seed, "c14cli", total, 10 if tier == "quick" else 50))]
+    if tier == "thorough":
+        import sanitize
+        parts.append(("asan", sanitize.rg_sanitizer_leg("C14", "asan", cli_case, "c03", 80, 5)(tier, seed)))
     rep = common.merge_reports(parts)
     return common.finalize("C14", tier, seed, "exploration", RULE, rep, t0, ASSUME,
                            floor_eval=500, floor_distinct=200)
